@@ -273,6 +273,25 @@ theorem recovered_over_existing_counterexample :
         ((((Node.init 1 false).client (.set kA [118] .always .none false)).1).recovered kA foreignTombstone).rs.keys kA) := by
   decide
 
+/-- FLUSHALL / FLUSHDB at the actor: the executor is emptied, the replication state (keys AND
+    Lamport clock) is left as it is — the recorder's `FlushDb | FlushAll => None` -/
+theorem flush_leaves_replication_state (n : Node) :
+    (n.client .flushall).1.rs = n.rs ∧ (n.client .flushdb).1.rs = n.rs ∧
+    (n.client .flushall).1.exec = [] ∧ (n.client .flushdb).1.exec = [] := by
+  simp [Node.client, record, execStep, Redis.step, Redis.exec, Redis.execFlush, applied,
+    Redis.Reply.isError, Redis.Reply.ok]
+
+/-- `SET a v; FLUSHALL`: the node serves nothing, its replication state (hence `snapshot_state()`,
+    the checkpoint, and the node itself after a restart) still holds `a` — an instance of the
+    non-replicated-writer class (FLUSH* is outside the property's command list) -/
+def flushLingersRun : List NEv := [.client (.set kA [118] .always .none false), .client .flushall]
+
+theorem flushall_lingers_counterexample :
+    ¬ Supported (Node.init 1 false) flushLingersRun ∧
+    served ((Node.init 1 false).run flushLingersRun) kA = none ∧
+    materialise (NMap.get ((Node.init 1 false).run flushLingersRun).rs.keys kA) ≠ none := by
+  decide
+
 theorem C06_served_equals_replicated_false : ¬ C06_served_equals_replicated := fun h =>
   non_replicated_writer_counterexample.2 (h 1 false nonReplicatedRun kA)
 
